@@ -409,3 +409,49 @@ theorem pipeline_split : ∀ (f s : Nat) (e : Option Nat) (items : List (Item σ
             · simp only [evItems_cons, run, hS, Bool.false_eq_true, ↓reduceIte, hE, hH, emit, Option.map_some]
 
 end Genshi.Match
+
+namespace Genshi.Match
+open Genshi
+variable {σ : Type}
+
+/-- **The pipeline, sequentially**: the filter with window `[s, e)` is the filter with window `[s, m)`
+    followed, on its output and from the template list it leaves, by the filter with window `[m, e)`:
+    same output, same final template list. -/
+theorem pipeline_seq (f s : Nat) (e : Option Nat) (items : List (Item σ)) (M M' : List (MT σ)) (out : List Event)
+    (m : Nat) (hnr : NoReg items) (hneu : Neutral (evs items)) (hok : ∀ t ∈ M, OKt t) (hsm : s ≤ m)
+    (hme : ∀ n, e = some n → m ≤ n) (h : run f s e items M = some (M', out)) :
+    ∃ f' out1 L, run f' s (some m) items M = some (L, out1) ∧ run f' m e (evItems out1) L = some (M', out) := by
+  obtain ⟨f', out1, L, H, hL, hH, haL, haH⟩ := pipeline_split f s e items M M' out m hnr hneu hok hsm hme h M M hok hok
+    (AgreeOn.refl _ M) (AgreeOn.refl _ M)
+  have hlL := run_len hnr hL
+  have hlH := run_len (noReg_evItems _) hH
+  have hlM' := run_len hnr h
+  -- the first pass leaves the high half alone
+  have haML : AgreeOn (win m e) M L := by
+    refine ⟨hlL, ?_⟩
+    intro j hj
+    have hjm : m ≤ j := by
+      by_cases hjm : j < m
+      · rw [win_hi_false hjm] at hj; cases hj
+      · omega
+    exact (run_outside hnr hL j (win_lo_false hjm)).symm
+  obtain ⟨H', hH', haH', hH'out⟩ := run_agree (noReg_evItems _) haML hH
+  refine ⟨f', out1, L, hL, ?_⟩
+  have : H' = M' := by
+    apply list_ext_get; intro j
+    by_cases hhi : win m e j = true
+    · rw [← haH'.2 j hhi]; exact (haH.2 j hhi).symm
+    · have hhi' : win m e j = false := by simpa using hhi
+      rw [hH'out j hhi']
+      by_cases hlo : win s (some m) j = true
+      · exact (haL.2 j hlo).symm
+      · have hlo' : win s (some m) j = false := by simpa using hlo
+        rw [run_outside hnr hL j hlo']
+        have : win s e j = false := by
+          by_cases hjm : j < m
+          · rw [← win_lo_eq hme hjm]; exact hlo'
+          · rw [← win_hi_eq (e := e) hsm (by omega)]; exact hhi'
+        exact (run_outside hnr h j this).symm
+  rw [← this]; exact hH'
+
+end Genshi.Match
